@@ -231,3 +231,191 @@ Proof.
   split; [|auto]. rewrite Hfr. cbn [app].
   unfold seg. fold n. unfold is_single in Hns. apply orb_false_iff in Hns. destruct Hns as [-> ->]. reflexivity.
 Qed.
+
+(** *** Where the sender waits *)
+
+(** block accounting of one Consecutive Frame pass *)
+Lemma tx_cf_block c a s evs m rbs : tx_state s = TxTransmitCF -> remote_bs s = Some rbs ->
+  tr_msg (tx_cf c a s evs) = Some m ->
+  let s' := tr_s (tx_cf c a s evs) in
+  tx_state s' = TxIdle \/
+  (tx_state s' = TxWaitFC /\ (negb (rbs =? 0) && (rbs <=? tx_block_counter s + 1)) = true) \/
+  (tx_state s' = TxTransmitCF /\ (negb (rbs =? 0) && (rbs <=? tx_block_counter s + 1)) = false /\
+   tx_block_counter s' = tx_block_counter s + 1 /\ remote_bs s' = Some rbs).
+Proof.
+  intros Hst Hrb.
+  assert (Hli : forall p n s0, tx_state (lim_inform p n s0) = tx_state s0 /\ tx_block_counter (lim_inform p n s0) = tx_block_counter s0 /\
+                               remote_bs (lim_inform p n s0) = remote_bs s0).
+  { intros p n s0. unfold lim_inform. destruct (negb (p_lim_enable p)); [auto|].
+    destruct (lim_times s0); [cbn; auto|]. destruct (SLOT_NS <? _); cbn; auto. }
+  unfold tx_cf. rewrite Hrb. destruct (active s) as [r|]; [|discriminate].
+  destruct (timer_timed_out _ _); [|unfold tx_finish; discriminate].
+  destruct (_ <=? a); [|unfold tx_finish; discriminate].
+  destruct (consume _ false r) as [[payload|] r']; [|discriminate].
+  destruct (0 <? zlen payload).
+  - destruct (make_tx_msg _ _ _) as [mm|]; [|discriminate].
+    destruct (r_is_depleted r').
+    + destruct (0 <? r_remaining r'); unfold stop_sending, tx_finish; cbv beta iota; cbn [tr_msg tr_s mk_tr]; intros _;
+        match goal with |- context [lim_inform ?p ?n ?s0] => destruct (Hli p n s0) as (N1 & N2 & N3) end;
+        left; rewrite N1; reflexivity.
+    + cbn [tx_block_counter set RecordSet.set].
+      destruct (negb (rbs =? 0) && (rbs <=? tx_block_counter s + 1)) eqn:Eb; unfold tx_finish; cbn [tr_msg tr_s mk_tr]; intros _;
+        match goal with |- context [lim_inform ?p ?n ?s0] => destruct (Hli p n s0) as (N1 & N2 & N3) end.
+      * right; left. rewrite N1. cbn. auto.
+      * right; right. rewrite N1, N2, N3. cbn. rewrite Hst, Hrb. auto.
+  - destruct (r_is_depleted r').
+    + destruct (0 <? r_remaining r'); unfold stop_sending, tx_finish; cbv beta iota; cbn; discriminate.
+    + destruct (negb (rbs =? 0) && _); unfold tx_finish; cbn; discriminate.
+Qed.
+
+Section CoopW.
+Variable c : cfg.
+Hypothesis Hok : params_ok (c_p c).
+Hypothesis Htbs : 0 < p_tbs_ns (c_p c).
+Variable fc : fcpdu.
+Hypothesis Hfc : fc_status fc = FS_CTS.
+Let bs := fc_bs fc.
+Hypothesis Hbs : 0 <= bs.
+Variable a : Z.
+Hypothesis Ha : cf_cap c <= a.
+
+(** the cooperative driver again, recording for each Consecutive Frame whether the sender had to
+    be granted a ContinueToSend since the previous one *)
+Fixpoint coopw (fuel : nat) (s : layer) (w : bool) (acc : list (bool * frame)) (evs : list event)
+  : list (bool * frame) * list event * layer :=
+  match fuel with
+  | O => (acc, evs, s)
+  | S n =>
+      match tx_state s with
+      | TxWaitFC => coopw n (fst (handle_fc_active c s fc)) true acc evs
+      | TxTransmitCF =>
+          let s1 := tick (1 + Z.max 0 (t_timeout (timer_tx_stmin s))) s in
+          let r := tx_cf c a s1 evs in
+          match tr_msg r with
+          | Some m => coopw n (tr_s r) false (acc ++ [(w, m)]) (tr_evs r)
+          | None => (acc, tr_evs r, tr_s r)
+          end
+      | _ => (acc, evs, s)
+      end
+  end.
+
+(** the sender must be granted before Consecutive Frame [i]: before the first one, and after
+    every completed block of [bs] frames *)
+Definition waits_before (i : Z) : bool := (i =? 1) || ((0 <? bs) && ((i - 1) mod bs =? 0)).
+
+Variables (rid : Z) (payload extra : list Z) (t : tat).
+Let n := zlen payload.
+Let idp := Address.tx_arb_id (c_txa c) Physical.
+
+Definition at_cfw (j : Z) (s : layer) (w : bool) : Prop :=
+  active s = Some (adv_req rid payload extra t (ff_cap c n + (j - 1) * cf_cap c)) /\
+  tx_seqnum s = j mod 16 /\
+  ((tx_state s = TxWaitFC /\ t_start (timer_rx_fc s) = Some (now s) /\ t_timeout (timer_rx_fc s) = p_tbs_ns (c_p c) /\
+    waits_before j = true) \/
+   (tx_state s = TxTransmitCF /\ remote_bs s = Some bs /\
+    (exists ts, t_start (timer_tx_stmin s) = Some ts /\ ts <= now s) /\
+    (0 < bs -> tx_block_counter s = (j - 1) mod bs) /\ w = waits_before j)).
+
+Lemma mod_succ x : 0 < bs -> x mod bs + 1 < bs -> (x + 1) mod bs = x mod bs + 1.
+Proof.
+  intros Hb H. pose proof (Z.mod_pos_bound x bs Hb) as Hm.
+  rewrite <- Zplus_mod_idemp_l. apply Z.mod_small. lia.
+Qed.
+
+Lemma mod_wrap x : 0 < bs -> bs <= x mod bs + 1 -> (x + 1) mod bs = 0.
+Proof.
+  intros Hb H. pose proof (Z.mod_pos_bound x bs Hb) as Hm.
+  rewrite <- Zplus_mod_idemp_l. replace (x mod bs + 1) with bs by lia. apply Z_mod_same_full.
+Qed.
+
+Theorem coopw_run : 0 < ff_cap c n -> forall (left : nat) j s w acc evs,
+  1 <= j -> at_cfw j s w ->
+  ff_cap c n + (j - 1) * cf_cap c < n ->
+  Z.of_nat left = (n - (ff_cap c n + (j - 1) * cf_cap c) + cf_cap c - 1) / cf_cap c ->
+  forall fuel, (2 * left <= fuel)%nat ->
+  let '(frames, evs', s') := coopw fuel s w acc evs in
+  frames = acc ++ map (fun i => (waits_before i, spec_frame c idp (cf_data c payload i))) (zseq j (Z.of_nat left)) /\
+  evs' = evs ++ [EDone rid true] /\ tx_state s' = TxIdle /\ active s' = None.
+Proof.
+  intros Hff.
+  pose proof (plen_bounds c) as Hp. pose proof (tx_dl_in c Hok) as Hdl.
+  assert (Hcfpos : 6 <= cf_cap c).
+  { unfold cf_cap. unfold c_tx_prefix in Hp. cbv zeta in *. lia. }
+  induction left as [|left IH]; intros j s w acc evs Hj Hat Hk Hleft fuel Hfuel.
+  - exfalso. assert (1 <= (n - (ff_cap c n + (j - 1) * cf_cap c) + cf_cap c - 1) / cf_cap c); [|lia].
+    apply Z.div_le_lower_bound; lia.
+  - assert (Hstep : forall fuel1 s1 w1, (1 + 2 * left <= fuel1)%nat -> at_cfw j s1 w1 -> tx_state s1 = TxTransmitCF ->
+      let '(frames, evs', s') := coopw fuel1 s1 w1 acc evs in
+      frames = acc ++ map (fun i => (waits_before i, spec_frame c idp (cf_data c payload i))) (zseq j (Z.of_nat (S left))) /\
+      evs' = evs ++ [EDone rid true] /\ tx_state s' = TxIdle /\ active s' = None).
+    { intros fuel1 s1 w1 Hf1 (Hact & Hsq & Hst) Hcf.
+      destruct fuel1 as [|f1]; [lia|]. cbn [coopw]. rewrite Hcf.
+      destruct Hst as [(Hw & _)|(_ & Hrb & (ts & Hts & Hle) & Hcnt & Hw1)]; [congruence|].
+      set (s2 := tick (1 + Z.max 0 (t_timeout (timer_tx_stmin s1))) s1).
+      assert (Hto : timer_timed_out (now s2) (timer_tx_stmin s2) = true).
+      { subst s2. apply (tick_expires _ _ ts Hts Hle). lia. }
+      pose proof (cf_step c Hok s2 evs rid payload extra t j bs a Hj Hff Hk) as Hs.
+      fold n in Hs.
+      destruct Hs as (Hm & Hcr & Hmore & Hlast); try (subst s2; cbn; assumption).
+      { lia. }
+      rewrite Hm.
+      destruct (Z_lt_ge_dec (ff_cap c n + (j - 1) * cf_cap c + cf_cap c) n) as [Hlt|Hge].
+      + destruct (Hmore Hlt) as (Hact' & Hsq' & _ & Hst' & Hev').
+        destruct (tx_cf_after c a s2 evs _ ltac:(subst s2; exact Hcf) Hm) as (Hn' & Hcfa & Hwa).
+        pose proof (tx_cf_block c a s2 evs _ bs ltac:(subst s2; exact Hcf) ltac:(subst s2; exact Hrb) Hm) as Hblk.
+        change (tx_block_counter s2) with (tx_block_counter s1) in Hblk.
+        rewrite Hev'.
+        assert (Hat' : at_cfw (j + 1) (tr_s (tx_cf c a s2 evs)) false).
+        { split; [|split; [exact Hsq'|]].
+          - rewrite Hact'. f_equal. f_equal. lia.
+          - destruct Hblk as [Hi|[(Hw & Hb)|(Hc & Hb & Hcn & Hr)]].
+            + destruct Hst' as [E|E]; congruence.
+            + left. split; [exact Hw|]. destruct (Hwa Hw) as (H1 & H2). rewrite Hn'. split; [auto|]. split; [exact H2|].
+              apply andb_true_iff in Hb. destruct Hb as [Hb1 Hb2]. apply negb_true_iff, Z.eqb_neq in Hb1. apply Z.leb_le in Hb2.
+              assert (Hbp : 0 < bs) by lia. rewrite (Hcnt Hbp) in Hb2.
+              unfold waits_before. replace (j + 1 - 1) with (j - 1 + 1) by lia.
+              rewrite (mod_wrap (j - 1) Hbp Hb2). destruct (Z.ltb_spec 0 bs); [|lia]. cbn. apply orb_true_r.
+            + right. split; [exact Hc|]. split; [exact Hr|]. destruct (Hcfa Hc) as (_ & H2 & _).
+              split; [exists (now s2); split; [exact H2|lia]|].
+              apply andb_false_iff in Hb. split.
+              * intros Hbp. rewrite Hcn, (Hcnt Hbp). replace (j + 1 - 1) with (j - 1 + 1) by lia. symmetry. apply mod_succ; [exact Hbp|].
+                destruct Hb as [Hb|Hb]; [apply negb_false_iff, Z.eqb_eq in Hb; lia|apply Z.leb_gt in Hb; rewrite (Hcnt Hbp) in Hb; lia].
+              * unfold waits_before. destruct (Z.eqb_spec (j + 1) 1); [lia|]. cbn [orb].
+                destruct (Z.ltb_spec 0 bs) as [Hbp|_]; [|reflexivity]. cbn [andb].
+                destruct Hb as [Hb|Hb]; [apply negb_false_iff, Z.eqb_eq in Hb; lia|]. apply Z.leb_gt in Hb. rewrite (Hcnt Hbp) in Hb.
+                replace (j + 1 - 1) with (j - 1 + 1) by lia. rewrite (mod_succ (j - 1) Hbp Hb).
+                pose proof (Z.mod_pos_bound (j - 1) bs Hbp). symmetry. apply Z.eqb_neq. lia. }
+        assert (Hleft' : Z.of_nat left = (n - (ff_cap c n + (j + 1 - 1) * cf_cap c) + cf_cap c - 1) / cf_cap c).
+        { assert (E : n - (ff_cap c n + (j - 1) * cf_cap c) + cf_cap c - 1 =
+                      (n - (ff_cap c n + (j + 1 - 1) * cf_cap c) + cf_cap c - 1) + 1 * cf_cap c) by lia.
+          rewrite E, Z.div_add in Hleft by lia. lia. }
+        specialize (IH (j + 1) (tr_s (tx_cf c a s2 evs)) false (acc ++ [(w1, spec_frame c idp (cf_data c payload j))]) evs
+                       ltac:(lia) Hat' ltac:(lia) Hleft' f1 ltac:(lia)).
+        destruct (coopw f1 _ _ _ _) as [[frames evs'] s']. destruct IH as (Hfr & He & Hi & Ha').
+        repeat split; try assumption.
+        rewrite Hfr, (zseq_cons j (Z.of_nat (S left))) by lia. cbn [map].
+        replace (Z.of_nat (S left) - 1) with (Z.of_nat left) by lia. rewrite <- app_assoc, Hw1. reflexivity.
+      + destruct (Hlast ltac:(lia)) as (Hi & Ha' & He).
+        assert (Hl0 : Z.of_nat (S left) = 1).
+        { rewrite Hleft. symmetry. apply Z.div_unique with (r := n - (ff_cap c n + (j - 1) * cf_cap c) - 1); lia. }
+        destruct f1 as [|f2]; cbn [coopw]; rewrite ?Hi; rewrite Hl0, (zseq_cons j 1) by lia;
+          replace (1 - 1) with 0 by lia; rewrite zseq_nil by lia; cbn [map]; rewrite Hw1; repeat split; assumption. }
+    destruct Hat as (Hact & Hsq & Hst).
+    destruct Hst as [(Hw & Hts & Hto & Hdue)|Hc].
+    + destruct fuel as [|f0]; [lia|]. cbn [coopw]. rewrite Hw.
+      assert (Hnt : timer_timed_out (now s) (timer_rx_fc s) = false).
+      { unfold timer_timed_out. rewrite Hts, Hto. apply orb_false_iff. split; [apply Z.ltb_ge; lia|apply Z.eqb_neq; lia]. }
+      destruct (cts_keeps c s fc Hfc Hnt Hw) as (K1 & K2 & K3 & K4 & K5 & K6 & K7).
+      pose proof (cts_sets_stmin c s fc Hfc Hnt) as (_ & _ & _ & Kc). destruct (Kc Hw) as (_ & Kcnt).
+      apply Hstep; [lia| |exact K4].
+      split; [rewrite K1; exact Hact|]. split; [rewrite K2; exact Hsq|].
+      right. split; [exact K4|]. split; [exact K5|]. split; [exists (now s); split; [exact K6|lia]|].
+      split; [|symmetry; exact Hdue].
+      intros Hbp. rewrite Kcnt. unfold waits_before in Hdue. apply orb_true_iff in Hdue. destruct Hdue as [E|E].
+      * apply Z.eqb_eq in E. subst j. replace (1 - 1) with 0 by lia. symmetry. apply Z.mod_0_l. lia.
+      * apply andb_true_iff in E. destruct E as [_ E]. apply Z.eqb_eq in E. symmetry. exact E.
+    + apply Hstep; [lia| |exact (proj1 Hc)].
+      split; [exact Hact|]. split; [exact Hsq|]. right. exact Hc.
+Qed.
+
+End CoopW.
